@@ -21,7 +21,7 @@ if ! git apply --check "$PATCH" 2>/dev/null; then
     fi
 fi
 git apply $CTX "$PATCH"
-trap 'cd /repo && git checkout -q -- . ' EXIT INT TERM
+trap 'cd /repo && git checkout -q -- . && git clean -fdq -- src tests' EXIT INT TERM
 for ID in "$@"; do
     # Evidence of a run on a changed tree must not replace the committed evidence
     # The dev-profile batch first; the release-profile sample only if that found nothing (it
